@@ -39,7 +39,7 @@ class Factor:
         :param: domain: the domain of this factor
         :param: structural_zeros: a list of values that are not possible
         """
-        idx = tuple(np.array(structural_zeros).T)
+        idx = tuple(np.array(structural_zeros, dtype=int).reshape(-1, len(domain)).T)
         vals = np.zeros(domain.shape)
         vals[idx] = -np.inf
         return Factor(domain, vals)
